@@ -28,7 +28,11 @@ func short(s string) string {
 
 func shorts(v []string) string {
 	var p []string
-	for _, s := range v {
+	for i, s := range v {
+		if i == 12 {
+			p = append(p, fmt.Sprintf("...(%d values)", len(v)))
+			break
+		}
 		p = append(p, short(s))
 	}
 	return "[" + strings.Join(p, ",") + "]"
